@@ -6,13 +6,8 @@ from ..common import dec_val, run_go, canon, as_multiset
 
 MODULE = "Genql.Properties.C07"
 LEAN_TARGETS = [MODULE]
-THEOREMS = [
-    "Genql.C07.cte_substitution",
-    "Genql.C07.cte_chain",
-    "Genql.C07.derived_substitution",
-    "Genql.C07.subquery_standalone",
-    "Genql.C07.exists_iff",
-]
+THEOREMS = ["Genql.C07." + t for t in [
+    "cte_substitution", "cte_chain", "derived_substitution", "subquery_standalone", "exists_iff"]]
 TRUSTED = ["sqlparser", "laziness of CTE thunks is unobservable for pure CTE bodies (the model evaluates them in order)"]
 RULE = ("documents with a base table (numeric/string columns, a nested array per row) x two- and three-stage pipelines: CTE chains "
         "of 1-3 with multiple references and `cte.column` paths, derived tables, select-list subqueries (row-scoped and "
